@@ -25,7 +25,11 @@ def gen_blocky(rng, depth):
                 out.append(('chord', b, L, rng.choice([None, None, 50, 100]), rng.choice([None, None, 77])))
             elif d > 0 and x < 0.7:
                 n = rng.choice([1, 2, 3])
-                out.append(('loop', n, body(d - 1, in_div), None if rng.random() < 0.5 else body(d - 1, in_div)))
+                brk = None if rng.random() < 0.5 else body(d - 1, in_div)
+                if brk is not None and rng.random() < 0.35:
+                    # a second `:` in the same loop: reached only on the passes that are not the last one, where it does nothing
+                    brk.insert(rng.randrange(0, len(brk) + 1), ('raw', ':'))
+                out.append(('loop', n, body(d - 1, in_div), brk))
             else: out += mml.gen_cmds(rng, 0, 1, in_div=in_div)
         return out
     prog = body(depth)
@@ -46,6 +50,11 @@ def streams(tier, rng, P, only=None, cases=None):
         n = 10000 if big else 1200
         for i in range(n):
             prog = gen_blocky(rng, rng.choice([1, 2, 3, 4]))
+            if i % 12 == 5:
+                # a tuplet whose body holds a loop with two `:` (the second one is passed on every pass but the last, where it is not reached)
+                el = lambda k: mml.gen_cmds(rng, 0, k, in_div=True)
+                loop = ('loop', rng.choice([2, 3, 4]), el(rng.randrange(1, 3)), el(rng.randrange(0, 3)) + [('raw', ':')] + el(rng.randrange(1, 3)))
+                prog = [('div', el(rng.randrange(0, 2)) + [loop] + el(rng.randrange(0, 3)), mml.gen_len(rng), '{'), ('noten', 100, None, None, None, None)]
             src = mml.pr(prog)
             cs.append(dict(req="run " + hx(src), src=src, show=src, sexp=mml.sexp(prog), blk=has_block(prog), key="b%d" % i, prog=prog))
         for j, src_prog in enumerate([
